@@ -176,7 +176,34 @@ def fill(claim, na):
         "errors inside numerical kernels; failures inside SciPy/lmfit.",
         "DESIGN.md section 4, C18",
     )
-    for pid in ( "C06", "C07", "C09", "C11", "C13",
+    claim(
+        "C07", "translation_validation",
+        "term extraction of design-matrix columns and of the variable→parameter map, symbolic identity against the model circuit built from the registered element equations",
+        "For 36 configurations (2 linear implementations × 3 tests × {Z,Y} × capacitance × inductance where applicable) the "
+        "columns stored by the matrix builders and the map applied by _update_circuit are extracted from the source and it "
+        "is proved with sympy that block(X_model(ω; g(x))) ≡ Σ_j x_j·col_j(ω) for the circuit _generate_circuit builds: the "
+        "linear system IS the model, so a spectrum of the model is reproduced by any full-rank solve. Also: column order vs "
+        "the order in which _update_circuit takes variables, b-vector blocks, one scaling factor for A and b in the "
+        "matrix-inversion form, agreement of the two implementations' k-th column.",
+        "Not decided: rank/conditioning of the design matrix, the non-linear CNLS implementation, the second-stage "
+        "corrections of the real/imaginary tests (only their column/variable placement). Element equations are taken from "
+        "the equation strings that C02 ties to _impedance.",
+        "DESIGN.md section 4, C07",
+    )
+    claim(
+        "C09", "other",
+        "homogeneity (scaling-degree) analysis of extracted terms by symbolic substitution, unit-derived expected degrees",
+        "Decides the mechanism of unit invariance for the linear Kramers-Kronig pipeline: each design-matrix column is "
+        "homogeneous under (ω→kω, τ→τ/k) with one degree for all row blocks; the time constants scale as 1/k, depend on ω "
+        "only through max/min (order-free) and not on Z; combined with the least-squares equivariance lemma the fitted "
+        "R, C, L, R_k/C_k rescale with exactly the degrees their declared units (ohm, F, H, s) prescribe; weight has degree "
+        "-2, residual and pseudo chi-squared summand degree 0; bare numeric literals on dimensioned fit variables are the "
+        "three reviewed nullifying constants. Point order reduces to C05 (DataSet normalises the order).",
+        "Trusted: the equivariance lemma for least squares (stated in the evidence). Not decided: the non-linear CNLS path, "
+        "conditioning.",
+        "DESIGN.md section 4, C09",
+    )
+    for pid in ( "C06", "C11", "C13",
                 "C19"):
         na(pid, NOT_YET)
     na("C10", "statistical behaviour of a heuristic pipeline (noise tracking, drift margin) on noisy inputs: quantifies over "
